@@ -37,15 +37,25 @@ def _widgets():
         _sizing = frozenset([urwid.FIXED])
         _selectable = False
 
-        def __init__(self, cols, rows, greedy=False):
+        def __init__(self, cols, rows, greedy=False, cur=None):
             super().__init__()
-            self.cols_, self.rows_, self.greedy = cols, rows, greedy
+            self.cols_, self.rows_, self.greedy, self.cur = cols, rows, greedy, cur
+
+        def selectable(self):
+            return self.cur is not None
+
+        def keypress(self, size, key):
+            return key
 
         def pack(self, size=(), focus=False):
             return (self.cols_, self.rows_)
 
         def render(self, size, focus=False):
-            return urwid.TextCanvas([rowtext(i, self.cols_).encode() for i in range(self.rows_)], maxcol=self.cols_)
+            cursor = None
+            if focus and self.cur is not None and 0 <= self.cur[0] < self.cols_ and 0 <= self.cur[1] < self.rows_:
+                cursor = tuple(self.cur)
+            return urwid.TextCanvas([rowtext(i, self.cols_).encode() for i in range(self.rows_)], maxcol=self.cols_,
+                                    cursor=cursor)
 
         def mouse_event(self, size, event, button, col, row, focus):
             return bool(self.greedy)
@@ -134,7 +144,7 @@ def build_child(spec):
                 raise core.MachineryError("bad pile item")
         return urwid.Pile(items)
     if k == "fixed":
-        return FixedGrid(spec["cols"], spec["rows"], spec.get("greedy", False))
+        return FixedGrid(spec["cols"], spec["rows"], spec.get("greedy", False), spec.get("cur"))
     if k == "tree":
         return build_tree(spec["tree"])
     if k == "flow":
@@ -554,30 +564,72 @@ class C20(core.Check):
         return {"parts": [len(m.group(1)), len(m.group(2)), len(m.group(3))], "rendered": True}
 
     def run_listbox(self, case):
+        """ScrollBar over a ListBox.  Every call ScrollBar.render makes on the ListBox's scrolling protocol is recorded
+        (instance-level patch): the answers are the observations the model ([pb_render]) is run on."""
         import urwid
+        from urwid.widget.scrollable import SupportsRelativeScroll
+
         def item(j, n):
             txt = "\n".join(f"i{j}l{q}" for q in range(n))
             return urwid.SelectableIcon(txt, 0) if case.get("sel") else urwid.Text(txt)
         lb = urwid.ListBox(urwid.SimpleFocusListWalker([item(j, n) for j, n in enumerate(case["items"])]))
+        calls = []
+
+        def patch(name):
+            orig = getattr(lb, name)
+
+            def wrapper(*a, **k):
+                r = orig(*a, **k)
+                if name == "render":
+                    calls.append((name, a, {"text": text_rows(r), "rows": r.rows(), "cols": r.cols()}))
+                else:
+                    calls.append((name, a, r))
+                return r
+            setattr(lb, name, wrapper)
+        for name in ("render", "require_relative_scroll", "get_visible_amount", "get_first_visible_pos", "rows_max",
+                     "get_scrollpos"):
+            patch(name)
         sb = urwid.ScrollBar(lb, thumb_char=THUMB, trough_char=TROUGH, side=case["side"], width=case["width"])
-        outs = []
+        relcap = isinstance(lb, SupportsRelativeScroll) and any(hasattr(lb, a) for a in ("__length_hint__", "__len__"))
+        outs, obs = [], []
         size = tuple(case["size"])
         for op in case["ops"]:
+            del calls[:]
             try:
                 if op[0] == "render":
                     size = (op[1], op[2])
                     txt = text_rows(sb.render(size, True))
                     self._keep = None
-                    outs.append({"op": "render", "err": None, "text": txt, "total": sum(case["items"])})
+
+                    def answers(name):
+                        return [c[2] for c in calls if c[0] == name]
+                    rm = answers("rows_max")
+                    rr = answers("require_relative_scroll")
+                    rel = bool(relcap and rr and rr[0])
+                    renders = [c for c in calls if c[0] == "render"]
+                    o = {"op": "render", "relcap": bool(relcap), "reqrel": bool(rr and rr[0]), "len": len(case["items"]),
+                         "visible": (answers("get_visible_amount") or [0])[0], "first": (answers("get_first_visible_pos") or [0])[0],
+                         # relative mode asks rows_max only in its corner case; then, as in the absolute mode, first for the
+                         # full size and (when a bar is needed) for the reduced size
+                         "rows_full": rm[0] if rm else 0, "rows_w": rm[1] if len(rm) > 1 else 0,
+                         "pos": (answers("get_scrollpos") or [0])[0],
+                         "lb": renders[-1][2] if renders else None,
+                         "lb_w": renders[-1][1][0][0] if renders else None, "relative": rel}
+                    obs.append(o)
+                    outs.append({"op": "render", "err": None, "text": txt, "total": sum(case["items"]), "child_w": o["lb_w"]})
                 elif op[0] == "key":
                     sb.keypress(size, op[1])
+                    obs.append({"op": "key"})
                     outs.append({"op": "key", "err": None})
                 elif op[0] == "mouse":
                     sb.mouse_event(size, "mouse press", op[1], op[2], op[3], True)
+                    obs.append({"op": "mouse"})
                     outs.append({"op": "mouse", "err": None})
             except Exception as e:
+                obs.append({"op": op[0], "failed": True})
                 outs.append({"op": op[0], "err": type(e).__name__})
                 break
+        self._memo = (core.canon(case), obs)
         return {"outs": outs}
 
     # ------------------------------------------------------------------ model wire format
@@ -591,7 +643,13 @@ class C20(core.Check):
             h, rows, pos = case["maxrow"], case["rows"], case["pos"]
             return [9, h, pos, rows - h, h, rows]
         if case.get("kind") == "listbox":
-            return [9, 1, 0, 0, 1, 1]      # not modelled: constant query, decode ignores it
+            obs = self.observations(case)
+            recs = []
+            for op, o in zip(case["ops"], obs):
+                if op[0] == "render" and not o.get("failed"):
+                    recs += [op[1], op[2], int(o["relcap"]), int(o["reqrel"]), o["len"], o["visible"], o["first"],
+                             o["rows_full"], o["rows_w"], o["pos"]]
+            return [8, case["width"], len(recs) // 10] + recs
         obs = self.observations(case)
         bar = case.get("bar")
         l = [1 if bar else 0, bar[0] if bar else 0, 1 if case.get("force") else 0,
@@ -624,7 +682,7 @@ class C20(core.Check):
             res = {"parts": list(ints[:3]), "rendered": case["maxrow"] <= 400}
             return res
         if case.get("kind") == "listbox":
-            return self.run_listbox(case)      # no model for the relative mode: trivially equal
+            return self.decode_listbox(case, ints)
         obs = self.observations(case)
         bar = case.get("bar")
         it = iter(ints)
@@ -694,6 +752,45 @@ class C20(core.Check):
                     res = {"op": "setpos", "err": None}
                     res.update(state())
                     outs.append(res)
+        except StopIteration:
+            return {"malformed": ints[:60]}
+        return {"outs": outs}
+
+    def decode_listbox(self, case, ints):
+        """Model reply (child width, bar parts per render) -> the canvas text: the ListBox's own recorded canvas beside
+        the bar column the model predicts."""
+        obs = self.observations(case)
+        it = iter(ints)
+        outs = []
+        try:
+            for op, o in zip(case["ops"], obs):
+                if o.get("failed"):
+                    # the implementation raised here; the model raises only for a malformed bar
+                    if op[0] == "render":
+                        e = None
+                        outs.append({"op": "render", "err": "<model has no answer: the implementation raised>"})
+                    else:
+                        outs.append({"op": op[0], "err": "<the implementation raised>"})
+                    break
+                if op[0] != "render":
+                    outs.append({"op": op[0], "err": None})
+                    continue
+                e, cw, hasbar, sbw, top, thumb, bottom = (next(it) for _ in range(7))
+                if e:
+                    outs.append({"op": "render", "err": ERR.get(e, "?")})
+                    break
+                body = list(o["lb"]["text"]) if o["lb"] else []
+                if hasbar:
+                    marks = [TROUGH] * top + [THUMB] * thumb + [TROUGH] * bottom
+                    if len(marks) != len(body):
+                        rows = body + ["<bar rows %d != body rows %d>" % (len(marks), len(body))]
+                    elif case["side"] == "left":
+                        rows = [m * sbw + r for m, r in zip(marks, body)]
+                    else:
+                        rows = [r + m * sbw for m, r in zip(marks, body)]
+                else:
+                    rows = body
+                outs.append({"op": "render", "err": None, "text": rows, "total": sum(case["items"]), "child_w": cw})
         except StopIteration:
             return {"malformed": ints[:60]}
         return {"outs": outs}
@@ -904,7 +1001,12 @@ class C20(core.Check):
             dist[k] = dist.get(k, 0) + 1
         kind = case.get("kind") or case["child"]["kind"]
         inc("child:" + kind)
-        if kind in ("thumb", "listbox"):
+        if kind == "listbox":
+            for o in self.observations(case):
+                if o.get("op") == "render" and not o.get("failed"):
+                    inc("listbox-render:" + ("relative" if o["relative"] else "absolute"))
+            return
+        if kind == "thumb":
             return
         inc("bar:" + (case["bar"][1] + str(case["bar"][0]) if case.get("bar") else "none"))
         for op, o in zip(case["ops"], res["outs"]):
@@ -1140,6 +1242,15 @@ class C20(core.Check):
                        "size": [w + bw, h],
                        "ops": [["render", w + bw, h], ["key", "down"], ["render", w + bw, h], ["setpos", 3], ["render", w + bw, h],
                                ["render", w + bw, rows], ["render", w + bw, rows + 1], ["render", cols + bw, rows + 2]]}
+        # a cursor in a fixed canvas wider / higher than the view: every cursor cell x every position
+        for cx in range(0, 7):
+            for cy in range(0, 5):
+                ops = []
+                for p in range(0, 4):
+                    ops += [["setpos", p], ["render", 4, 2]]
+                ops += [["render", 9, 2], ["render", 4, 7]]
+                yield {"child": {"kind": "fixed", "cols": 7, "rows": 5, "cur": [cx, cy]}, "bar": [None, [1, "right"]][(cx + cy) % 2],
+                       "force": False, "focus": True, "size": [4, 2], "ops": ops}
         for _ in range(60 if tier == "quick" else 600):
             cols, rows = rng.choice([4, 6, 9, 15]), rng.choice([1, 2, 3, 5])
             w, h = rng.randrange(2, cols), rows + rng.choice([1, 2, 4])
@@ -1169,8 +1280,11 @@ class C20(core.Check):
                     items.append(["d"])
             return {"kind": "pile", "items": items}
         if k == "fixed":
-            return {"kind": "fixed", "cols": rng.choice([1, 2, 3, 4, 5, 6, 8, 12]), "rows": rng.choice([1, 2, 3, 4, 6, 9, 15]),
+            spec = {"kind": "fixed", "cols": rng.choice([1, 2, 3, 4, 5, 6, 8, 12]), "rows": rng.choice([1, 2, 3, 4, 6, 9, 15]),
                     "greedy": rng.random() < 0.3}
+            if rng.random() < 0.4:     # a cursor anywhere in the fixed canvas: also right of / below the view
+                spec["cur"] = [rng.randrange(spec["cols"]), rng.randrange(spec["rows"])]
+            return spec
         grab = rng.sample(SCROLL_KEYS + ["x", "enter"], rng.choice([0, 1, 2, 4]))
         spec = {"kind": "flow", "n": rng.choice([1, 2, 3, 5, 8, 13]), "sel": rng.random() < 0.7, "grab": sorted(grab),
                 "greedy": rng.random() < 0.4}
